@@ -1,7 +1,7 @@
 (* C02 -- the nesting limit bounds tree depth and recursion for any input.  Statements only; proofs in
    proofs/{BlockProofs,InlineProofs,CoreProofs}.v; see DESIGN.md section 6 C02. *)
 From Coq Require Import String.
-From MdIt Require Import Prims Tables Tree Render Block Inline Core Dump Dispatch BlockProofs InlineProofs CoreProofs DepthProofs.
+From MdIt Require Import Prims Tables Ruler Tree Render Block Inline Core Dump Dispatch BlockProofs InlineProofs CoreProofs DepthProofs InlineDepthProofs TreeDepthProofs.
 Local Open Scope string_scope.
 Local Open Scope list_scope.
 Local Open Scope N_scope.
@@ -33,8 +33,12 @@ Proof. vm_compute. reflexivity. Qed.
    distinguished outcome OutOfFuel; the theorems say that outcome is impossible once the budget exceeds
    the nesting limit by 1 (blocks) or 2 (inlines) -- whatever the input and the rule chain.
    ALSO PROVED: the tree built by the block parser is at most 2 * max_nesting deep (any input, any chain).
-   NOT PROVED: the bound on the depth added by the inline parser (and with it walk/render/drop); decided on
-   every run by the depth oracle (tree depth, emphasis wrappers not counted, <= 3*limit+4), the measured
+   ALSO PROVED: for every parser whose inline chain contains no emphasis-pair rule (emphasis, strong,
+   strikethrough), the depth of the whole document tree is bounded by a function of the core chain and the
+   nesting limit alone: each inline root adds at most max_nesting + 1 levels (links and images one per level).
+   NOT PROVED, because false: the same bound with the emphasis-pair rules -- open known finding F3 (see the
+   refuting example below); walk, render and drop recurse once per tree level, so they are bounded exactly
+   when the depth is.  Decided on every run by the depth oracle (tree depth, emphasis wrappers not counted, <= 3*limit+4), the measured
    recursion gauge of the implementation, and the correspondence.  Emphasis nesting is NOT bounded by
    the limit in the implementation: open known finding F3. *)
 
@@ -60,6 +64,29 @@ Theorem C02_block_tree_depth_bounded : forall fuel cfg texts k m a e refs root' 
   (depth_of root' <= 2 * N.to_nat (bc_maxnest cfg))%nat.
 Proof. exact block_tree_depth. Qed.
 
+(* one inline root: links / images nest one level per nesting level, everything else is flat *)
+Theorem C02_inline_depth_bounded_without_emphasis : forall fuel cfg src map_ k m a e refs root',
+  no_emph (ic_chain cfg) = true ->
+  inline_parse fuel cfg src map_ (Node k m a e []) refs = inr root' -> (depth_of root' <= S (N.to_nat (ic_maxnest cfg)))%nat.
+Proof. exact inline_parse_depth. Qed.
+
+(* the whole document, any core chain *)
+Theorem C02_tree_depth_bounded_without_emphasis : forall fuel m src d cc ic,
+  snd (r_iter (md_core m)) = inr cc -> snd (r_iter (md_inline m)) = inr ic -> no_emph ic = true ->
+  snd (parse fuel m src) = inr d ->
+  (depth_of (d_root d) <= fold_left (fun dd rule => step_bound (md_maxnest m) (md_maxnest m) rule dd) cc 0%nat)%nat.
+Proof. exact parse_tree_depth. Qed.
+
+(* the bound for the usual chain block -> inline (-> sourcepos): 3 * limit + 1 *)
+Example C02_bound_value : fold_left (fun dd rule => step_bound 100 100 rule dd) [C_BLOCK; C_INLINE; C_SOURCEPOS] 0%nat = 301%nat.
+Proof. vm_compute. reflexivity. Qed.
+
+(* F3, as a theorem about the model: with the emphasis rules the depth is NOT bounded by the limit *)
+Example C02_emphasis_depth_refuted :
+  match depth_with 1 (flat_map (fun _ => bs "*a **b ") (seq 0 6) ++ bs "c" ++ flat_map (fun _ => bs " b** a*") (seq 0 6)) with
+  | Some d => Nat.ltb (3 * 1 + 4) d = true | None => False end.
+Proof. vm_compute. reflexivity. Qed.
+
 (* non-vacuity: the budget is tight up to a constant -- with a budget below the nesting limit the
    same parser does run out on nested input *)
 Example C02_budget_matters :
@@ -72,3 +99,5 @@ Print Assumptions C02_block_recursion_bounded.
 Print Assumptions C02_inline_recursion_bounded.
 Print Assumptions C02_parse_recursion_bounded.
 Print Assumptions C02_block_tree_depth_bounded.
+Print Assumptions C02_inline_depth_bounded_without_emphasis.
+Print Assumptions C02_tree_depth_bounded_without_emphasis.
